@@ -9,7 +9,7 @@ from vlib import ksim
 PROPERTY = "C03"
 RULE = ("initial workers 1-4 x timeout {0,1,2,5,30} x history of up to 12 external events {worker exit with status 0/1/3/4/255 or "
         "signal 9/15/11, TTIN/TTOU bursts of 1-7 signals, HUP with a new worker count, child dying inside fork(), a non-worker child and a worker dying under one SIGCHLD, "
-        "every live worker failing to boot one after the other (also during halt()), real-time signals 34-64, tick} x the pid counter wrapping after 1-6 forks x a schedule "
+        "every live worker failing to boot one after the other (also during halt()), real-time signals 34-64, a worker exiting at one of the arbiter's next system-call boundaries, a worker that stops responding (only when timeout>0), tick} x the pid counter wrapping after 1-6 forks x a schedule "
         "vector that decides at every fake system call (fork, kill, waitpid, sleep, select) whether a dying child dies there, so that "
         "SIGCHLD's handler runs inside spawn_worker, kill_workers, manage_workers, reload; the real Arbiter.run() executes against the "
         "simulated kernel and is compared with a reference pool model at quiescence (timeout+8 idle seconds after the last event): "
@@ -37,6 +37,9 @@ event = st.one_of(
     st.tuples(st.just("coalesced"), st.integers(0, 5), st.sampled_from([0, 1 << 8, 9, 35])),
     st.tuples(st.just("tick")),
     st.tuples(st.just("bootfail"), st.sampled_from([3 << 8, 4 << 8])),
+    # a worker stops heart-beating (the timeout scan will signal it: one more place where SIGCHLD can interleave), a worker on its way out
+    st.tuples(st.just("hang"), st.integers(0, 3), st.just("hung")),
+    st.tuples(st.just("exit_soon"), st.integers(0, 3), st.sampled_from([0, 1 << 8])),
 )
 
 
@@ -250,7 +253,11 @@ def run_case(case):
         return run_boot_failure(case)
     if case.get("engine") == "Rbusy":
         return run_busy_retire(case)
-    k = ksim.Kernel(case["sched"], case["events"], quiesce_steps=case["timeout"] + 8)
+    events = case["events"]
+    if case["timeout"] == 0:
+        # with the timeout scan disabled nothing can remove a worker that has stopped responding (C11's domain): no hangs then
+        events = [e for e in events if e[0] != "hang"]
+    k = ksim.Kernel(case["sched"], events, quiesce_steps=case["timeout"] + 8)
     k.pid_wrap = case.get("pid_wrap")
     out = ksim.run_arbiter(k, {"workers": case["workers"], "timeout": case["timeout"], "graceful_timeout": 3})
     arb = out["arbiter"]
